@@ -154,7 +154,12 @@ def fmt_format(ctx, args, st):
 @model(r'^<(.+) as ToString>::to_string$')
 def to_string(ctx, args, st):
     v = st.deref_all(args[0])
+    if isinstance(v, Adt) and v.ty == 'DisplayCow':
+        v = st.deref_all(v.items[0])
     if isinstance(v, Int) and v.concrete() is not None: return ret(st, StrV(str(v.concrete()), 'String'))
     if isinstance(v, Int): return ret(st, StrV((), 'String', {'name': 'to_string', 'parts': (('disp', 'display', repr(v)),), 'of': v}))
     if isinstance(v, StrV): return ret(st, v.retag('String'))
+    if isinstance(v, Bool) and v.concrete() is not None: return ret(st, StrV('true' if v.concrete() else 'false', 'String'))
+    if isinstance(v, (Bool, Float, Char)) or isinstance(v, Adt):
+        return ret(st, StrV((), 'String', {'name': 'to_string', 'parts': (('disp', 'display', repr(v)),), 'of': v}))
     return None
